@@ -56,3 +56,8 @@ prop("C10", [H("H10_seq", quick={"wall": "150s", "shards": 16}, thorough={"wall"
 prop("C09", [H("K1_chunksize"), H("K1_chunktable"), H("K7_footer"),
              H("H09_layout", common={"param": "maxDocs=2"}, quick={"wall": "150s", "shards": 16}, thorough={"wall": "900s", "shards": 16}),
              H("H09_layout_merged", quick={"wall": "150s", "shards": 16}, thorough={"wall": "900s", "shards": 16})])
+VEC = {"vectors": True}
+prop("C14", [H("H14_search", common=dict(VEC, param="maxDocs=2"), quick={"wall": "150s", "shards": 16}, thorough={"wall": "900s", "shards": 16, "param": "maxDocs=3"})])
+prop("C15", [H("H15_vecmerge", common=dict(VEC), quick={"wall": "150s", "shards": 16}, thorough={"wall": "900s", "shards": 16})])
+prop("C16", [H("H16_history", common=dict(VEC, param="maxEvents=4"), quick={"wall": "150s", "shards": 16}, thorough={"wall": "900s", "shards": 16, "param": "maxEvents=6"})])
+prop("C19", [H("H19_faults", common=dict(VEC), quick={"wall": "100s", "shards": 2})])
